@@ -26,7 +26,9 @@ fn enc_read(r: Read, out: &mut Vec<V>) {
     }
 }
 
-/// rx: [stream window, connection window, ops..] -- see coq/model/FlowRecv.v (parse / step)
+/// rx: [window of peer-initiated streams, window of locally initiated streams, connection window,
+/// ops..] -- see coq/model/FlowRecv.v (parse / step); stream index 0, 1 = client initiated
+/// bidirectional, 2, 3 = bidirectional streams opened by the local (server) application up front
 ///  1 s off len fin  STREAM frame (data = `len` bytes all equal to the frame's running number)
 ///  2 s size         RESET_STREAM
 ///  3 s n            application reads at most n bytes
@@ -39,9 +41,10 @@ fn enc_read(r: Read, out: &mut Vec<V>) {
 fn rx(input: &[V]) -> Vec<V> {
     let mut c = Cur::new(input);
     let ws = c.u64().min(u32::MAX as u64);
+    let wl = c.u64().min(u32::MAX as u64);
     let wc = c.u64().min(u32::MAX as u64);
     let local = FlowLimits {
-        max_data_bidi_local: ws,
+        max_data_bidi_local: wl,
         max_data_bidi_remote: ws,
         max_data_uni: ws,
         max_data: wc,
@@ -56,15 +59,23 @@ fn rx(input: &[V]) -> Vec<V> {
         max_bidi_streams: 100,
         max_uni_streams: 100,
     };
-    // local endpoint = server, streams = client initiated bidirectional 0, 4, 8, 12
+    // local endpoint = server
     let mut d = RxDriver::new(true, local, peer);
-    let sid = |v: V| recv::stream_id(false, true, (v as u64) % 4).unwrap();
+    let ids: [u64; 4] = [
+        recv::stream_id(false, true, 0).unwrap(),
+        recv::stream_id(false, true, 1).unwrap(),
+        d.open_local(true).expect("first local stream"),
+        d.open_local(true).expect("second local stream"),
+    ];
+    assert_eq!(ids[2], recv::stream_id(true, true, 0).unwrap());
+    assert_eq!(ids[3], recv::stream_id(true, true, 1).unwrap());
+    let sid = |v: V| ids[((v as u64) % 4) as usize];
     let mut out: Vec<V> = vec![];
     let mut tag: u64 = 1;
     let closed = |d: &mut RxDriver, out: &mut Vec<V>| {
         assert!(d.is_closed(), "a rejected frame closes the stream manager");
         for i in 0..4 {
-            let r = d.read(recv::stream_id(false, true, i).unwrap(), usize::MAX);
+            let r = d.read(ids[i], usize::MAX);
             enc_read(r, out);
         }
     };
@@ -125,10 +136,10 @@ fn rx(input: &[V]) -> Vec<V> {
                         md = a as V;
                     } else if k == 0x11 {
                         let i = (0..4)
-                            .find(|i| recv::stream_id(false, true, *i).unwrap() == a)
+                            .find(|i| ids[*i] == a)
                             .expect("MAX_STREAM_DATA for a known stream");
-                        assert_eq!(msd[i as usize], -1, "one MAX_STREAM_DATA per stream and packet");
-                        msd[i as usize] = b as V;
+                        assert_eq!(msd[i], -1, "one MAX_STREAM_DATA per stream and packet");
+                        msd[i] = b as V;
                     }
                 }
                 out.push(md);
@@ -159,6 +170,109 @@ fn rx(input: &[V]) -> Vec<V> {
     out
 }
 
+/// st: [local_is_server, limit of peer-initiated bidirectional streams, ... unidirectional, ops..]
+///  1 t n k   peer frame of kind k for the n-th stream of class t
+///            (t: 0 peer bidi, 1 peer uni, 2 local bidi, 3 local uni;
+///             k: 0 STREAM(empty) 1 STREAM(empty, FIN) 2 RESET_STREAM(0) 3 STREAM_DATA_BLOCKED
+///                4 MAX_STREAM_DATA 5 STOP_SENDING)            -> [code]; an error ends the case
+///  2 b       the application opens a local stream (b != 0: bidirectional) -> [1 | 0]
+///  3 t n     the application reads the stream -> [-1 error | 0 | 1 finished]
+///  4         200 ms pass
+///  5         timers fire, one packet is transmitted -> [MAX_STREAMS bidi | -1, MAX_STREAMS uni | -1]
+///  6 k / 7 k packet k acknowledged / lost
+fn st(input: &[V]) -> Vec<V> {
+    let mut c = Cur::new(input);
+    let server = c.next() != 0;
+    let lb = c.u64().min(1 << 20);
+    let lu = c.u64().min(1 << 20);
+    let local = FlowLimits {
+        max_data_bidi_local: 1000,
+        max_data_bidi_remote: 1000,
+        max_data_uni: 1000,
+        max_data: 100000,
+        max_bidi_streams: lb,
+        max_uni_streams: lu,
+    };
+    let peer = FlowLimits {
+        max_data_bidi_local: 1000,
+        max_data_bidi_remote: 1000,
+        max_data_uni: 1000,
+        max_data: 100000,
+        max_bidi_streams: 500,
+        max_uni_streams: 500,
+    };
+    let mut d = RxDriver::new(server, local, peer);
+    let id = |t: V, n: V| -> u64 {
+        let t = (t as u64) % 4;
+        let local_init = t >= 2;
+        let bidi = t % 2 == 0;
+        let initiator_is_server = if local_init { server } else { !server };
+        recv::stream_id(initiator_is_server, bidi, (n as u64) % 64).unwrap()
+    };
+    let mut out: Vec<V> = vec![];
+    while !c.done() {
+        match c.next() {
+            1 => {
+                let t = c.next();
+                let n = c.next();
+                let s = id(t, n);
+                let r = match c.next() {
+                    0 => d.on_stream(s, 0, &[], false),
+                    1 => d.on_stream(s, 0, &[], true),
+                    2 => d.on_reset_stream(s, 3, 0),
+                    3 => d.on_stream_data_blocked(s, 0),
+                    4 => d.on_max_stream_data(s, 2000),
+                    _ => d.on_stop_sending(s, 4),
+                };
+                match r {
+                    Ok(()) => out.push(0),
+                    Err(code) => {
+                        out.push(code as V);
+                        assert!(d.is_closed());
+                        return out;
+                    }
+                }
+            }
+            2 => {
+                let b = c.next() != 0;
+                out.push(d.open_local(b).is_some() as V);
+            }
+            3 => {
+                let t = c.next();
+                let n = c.next();
+                match d.read(id(t, n), 10) {
+                    Read::Error => out.push(-1),
+                    Read::Data(_, fin) => out.push(fin as V),
+                }
+            }
+            4 => d.advance(200_000),
+            5 => {
+                d.on_timeout();
+                let (_pn, frames) = d.transmit();
+                let mut v: [V; 2] = [-1, -1];
+                for (k, a, _b) in frames {
+                    if k == 0x12 || k == 0x13 {
+                        let i = (k - 0x12) as usize;
+                        assert_eq!(v[i], -1, "one MAX_STREAMS per type and packet");
+                        v[i] = a as V;
+                    }
+                }
+                out.extend_from_slice(&v);
+            }
+            6 => {
+                let k = c.u64();
+                d.ack(k, k);
+            }
+            7 => {
+                let k = c.u64();
+                d.loss(k, k);
+            }
+            _ => break,
+        }
+    }
+    out
+}
+
 fn main() {
-    main_with(&[("rx", rx), ("rx_tolerant", rx)]);
+    main_with(&[("rx", rx), ("rx_tolerant", rx), ("st", st), ("st_tolerant", st)]);
 }
